@@ -10,6 +10,7 @@ import (
 	"net/http/httptest"
 	"os"
 	"path/filepath"
+	"runtime"
 	"strings"
 	"sync/atomic"
 	"time"
@@ -310,6 +311,31 @@ func vkPadForTxPayload(target int) (int, bool) {
 		pad -= got - target
 	}
 	return 0, false
+}
+
+// vkDrain waits (bounded) until the goroutines started by earlier requests have finished: FirstSuccess returns at
+// the first hit and leaves the losing search jobs running, and closing an epoch under them is the server's
+// business (C09), not something a harness should do by accident. baseline = runtime.NumGoroutine() before the
+// requests were issued.
+func vkDrain(baseline int) {
+	last, stable := -1, 0
+	for i := 0; i < 300; i++ {
+		n := runtime.NumGoroutine()
+		if n <= baseline {
+			return
+		}
+		// long-lived helpers (keep-alive connections, cache GC tickers of remote files) never go away: a count
+		// that has not moved for 8 polls is taken as drained
+		if n == last {
+			stable++
+			if stable >= 8 {
+				return
+			}
+		} else {
+			last, stable = n, 0
+		}
+		time.Sleep(10 * time.Millisecond)
+	}
 }
 
 // vkServeFiles starts a loopback HTTP file server rooted at the filesystem root (Range requests supported by
